@@ -565,3 +565,42 @@ func init() {
 		return e.binop(token.EQL, v.T, v.V, zero(v.T))
 	}
 }
+
+func init() {
+	intrinsics["(reflect.Value).FieldByIndex"] = func(e *Engine, a []Value) Value {
+		v := a[0].(RV)
+		idx := a[1].(Slice)
+		field := intrinsics["(reflect.Value).Field"]
+		elem := intrinsics["(reflect.Value).Elem"]
+		if idx.Len == 1 {
+			return field(e, []Value{v, (*idx.A)[idx.Off]})
+		}
+		if e.rvKind(v) != reflect.Struct {
+			e.reflectPanic("call of reflect.Value.FieldByIndex on " + e.rvKind(v).String() + " Value")
+		}
+		for i := 0; i < idx.Len; i++ {
+			if i > 0 && e.rvKind(v) == reflect.Ptr {
+				if _, isStruct := v.T.Underlying().(*types.Pointer).Elem().Underlying().(*types.Struct); isStruct {
+					if p, _ := v.V.(*Value); p == nil {
+						e.reflectPanic("indirection through nil pointer to embedded struct")
+					}
+					v = elem(e, []Value{v}).(RV)
+				}
+			}
+			v = field(e, []Value{v, (*idx.A)[idx.Off+i]}).(RV)
+		}
+		return v
+	}
+	intrinsics["(reflect.Value).FieldByName"] = func(e *Engine, a []Value) Value {
+		v := a[0].(RV)
+		if e.rvKind(v) != reflect.Struct {
+			e.reflectPanic("call of reflect.Value.FieldByName on " + e.rvKind(v).String() + " Value")
+		}
+		res, _ := e.rtMethod2("FieldByName", RT{v.T}, []Value{a[1]})
+		tu := res.(Tuple)
+		if !tu[1].(Bool).V {
+			return RV{}
+		}
+		return intrinsics["(reflect.Value).FieldByIndex"](e, []Value{v, tu[0].(Struct)[5]})
+	}
+}
